@@ -54,6 +54,10 @@ Definition agree_add (x : out) (g : gores bool) : bool :=
   | _, _ => false
   end.
 
+(* nat is unary: an index of 2^62..2^64-1 (sent by the harness to probe the refusal of far indices) is evaluated at 65536.
+   Sound for histories shorter than that (the harness uses at most 48 pubkeys): FarIndex.s_step_far (the Spec's step does
+   not depend on which beyond-the-history index is used) + cache_refines (Impl = Spec on every operation sequence). *)
+Definition far_index (i : N) : nat := N.to_nat (N.min i 65536).
 Section Check.
 Variable St : Type.
 Variable step : St -> op -> St * out.
@@ -83,7 +87,7 @@ Fixpoint steps_ok (s : St) (last : list dump) (steps : list cstep) : bool :=
   match steps with
   | [] => true
   | CStep v dst i p go obs :: r =>
-      let '(s', x) := step s (OAdd (N.to_nat v) (N.to_nat dst) (N.to_nat i) p) in
+      let '(s', x) := step s (OAdd (N.to_nat v) (N.to_nat dst) (far_index i) p) in
       let last' := update_last last obs in
       agree_add x go && state_ok s' last' && steps_ok s' last' r
   end.
